@@ -483,6 +483,7 @@ package sipsp
 //@ func (*PContacts).Reset(c) ()
 //@   requires c != nil && contWF(c)
 //@   modifies *c, c.Vals[*]
+//@   keeps c.Vals
 //@   loop 0 "for i := 0; i < len(c.Vals) && i <= c.N; i++"
 //@     invariant 0 <= i && i <= len(c.Vals) && i <= c.N+1 && c.N == c_old.N && sameSlice(c.Vals, c_old.Vals) && blockSep(c, c.Vals)
 //@     invariant forall(k, 0, i, fbZero(&c.Vals[k])) && forall(k, c.N+1, len(c.Vals), fbZero(&c.Vals[k]))
@@ -513,6 +514,7 @@ package sipsp
 //@ func (*HdrLst).Reset(hl) ()
 //@   requires hl != nil && blockSep(hl, hl.Hdrs)
 //@   modifies *hl, hl.Hdrs[*]
+//@   keeps hl.Hdrs
 //@   loop 0 "for i := 0; i < len(hdrs); i++"
 //@     invariant 0 <= i && i <= len(hdrs) && sameSlice(hdrs, hl_old.Hdrs) && forall(k, 0, i, hdrZero(&hdrs[k]))
 //@     invariant hl.PFlags == 0 && hl.N == 0 && hl.Hdrs == nil && hl.hdr == Hdr{} && forall(k, 0, 13, hl.h[k] == Hdr{})
@@ -683,3 +685,14 @@ package sipsp
 //@   requires[C10] clNum(pcl, buf, offs)
 //@   modifies *pcl
 //@   ensures 0 <= n && n <= len(buf) && within(pcl.SVal, len(buf))
+// ---- whole-message objects: Reset / Init (C12) ----
+
+//@ func (*PHdrVals).Reset(hv) ()
+//@   requires hv != nil && contWF(&hv.Contacts) && blockSep(hv, hv.Contacts.Vals)
+//@   modifies *hv, hv.Contacts.Vals[*]
+//@   ensures[C12,*] "hv-zero": hvAllZero(hv) && sameSlice(hv.Contacts.Vals, hv_old.Contacts.Vals)
+
+//@ func (*PHdrVals).Init(hv, contactsbuf) ()
+//@   requires hv != nil && contWF(&hv.Contacts) && blockSep(hv, hv.Contacts.Vals)
+//@   modifies *hv, hv.Contacts.Vals[*]
+//@   ensures[C12,*] "hv-init": hvZeroBut(hv) && sameSlice(hv.Contacts.Vals, contactsbuf)
